@@ -47,9 +47,9 @@ fn texture_name() {
             Ok(b) => {
                 let p = M2Model::parse(&mut Cursor::new(&b)).unwrap();
                 println!(
-                    "  {filler} vertices before the texture: write Ok; parsed back name = {:?} (expected \"a.blp\"), vertex[2].position = {:?} (expected x=3.0,y=2.0,z=3.0)",
+                    "  {filler} vertices before the texture: write Ok; parsed back name = {:?} (expected \"a.blp\"), vertex[2].tex_coords = {:?} (expected x=0.5,y=0.5: the name's count/offset were patched into this vertex)",
                     String::from_utf8_lossy(&p.textures[0].filename.string.data),
-                    p.vertices.get(2).map(|v| v.position)
+                    p.vertices.get(2).map(|v| v.tex_coords)
                 );
             }
         }
